@@ -137,6 +137,17 @@ def run_backends(case):
         s6 = [int(round(x * 1000000)) for x in sc]
         return {"e": "ret", "fn": "pagerank", "status": r.status.name, "dp": dp, "dq": dq, "tol6": tol6, "scores": s6, "meaning": []}
     gp_ev += tri("pagerank_edges", pagerank_edges, (n, E2), {"damping": dp / dq, "tol": tol6 * 1e-6, "max_iter": 3000}, p_pr)
+    # iteration limit and tolerance are inputs too: "the same status" must hold when the limit bites; the scores of these short runs
+    # are compared between the back-ends only (the functional PageRank check needs convergence), hence not appended to gp_ev
+    for mi in case.get("pr_max_iters", (0, 1, 2, 3, 5, 8)):
+        t6 = case.get("pr_tol6", 10000)
+
+        def p_short(r, t6=t6):
+            ev = p_pr(r)
+            ev["tol6"] = t6
+            return ev
+        tri("pagerank_edges", pagerank_edges, (n, E2), {"damping": dp / dq, "tol": t6 * 1e-6, "max_iter": mi}, p_short)
+        same[-1]["tol6"] = t6
     for ev in paths_ev:
         ev.setdefault("solver", "worker")
     return {"same": same,
